@@ -83,11 +83,12 @@ def order_before(ctx, prog, rule, body, a_name, b_name, instance=None, a_depth=0
                   [site(body, b) for b in (bad or B)] + [site(body, a) for a in A])
 
 
-def follows(ctx, prog, rule, body, a_blocks, b_name, instance, b_depth=0, allowed=(), what='', until=()):
+def follows(ctx, prog, rule, body, a_blocks, b_name, instance, b_depth=0, allowed=(), what='', until=(), b_sites=None):
     """T-order (post): every path from after each block of `a_blocks` to a successful return of
     `body` passes a completion of B. Error exits (`?`, `return Err`) and panics are not successful
-    returns; `allowed` blocks (config-gate exits) are accepted ends and reported."""
-    B = done_sites(prog, body, b_name, b_depth)
+    returns; `allowed` blocks (config-gate exits) are accepted ends and reported. b_sites: the completion blocks of B, when the
+    caller has picked them itself (b_name is then only the label)."""
+    B = sorted(set(b_sites)) if b_sites is not None else done_sites(prog, body, b_name, b_depth)
     ctx.functions_analysed.add(body.name)
     avoid = set(B) | body.error_exit_blocks() | set(allowed)
     rets = set(body.return_blocks()) | set(until)
@@ -456,22 +457,109 @@ def fallible_guards(prog, body, is_test, sinks, depth=2):
     return sorted(set(out))
 
 
-def region_callees(prog, body, region, depth=2, _seen=None):
+def region_callees(prog, body, region, depth=2):
     """(call in `region` of `body`, callee body) for every function of this crate entered from the region, `depth` call levels deep
     (the call site reported for a deeper callee is still the one in `body`): a region of a function, e.g. the arm of a match, keeps
-    its meaning when part of it is moved into a helper."""
-    out = []
-    _seen = set() if _seen is None else _seen
-    for c in body.calls:
-        if region is not None and c.bb not in region:
-            continue
-        for cn in prog.callee_bodies(c):
-            cb = prog.bodies[cn]
-            if cb.rec.get('derived') or cn in _seen:
+    its meaning when part of it is moved into a helper. Nearest call first; calls through `Fn*::call` that the compiler could not
+    resolve are not followed (they would fan out to every closure of the crate)."""
+    def entered(b_, blocks):
+        for c in b_.calls:
+            if blocks is not None and c.bb not in blocks:
                 continue
-            _seen.add(cn)
-            for g in prog.group(cb.root):
+            if re.search(r'ops::Fn(Mut|Once)?::call(_mut|_once)?$', c.fn or '') and not (c.res and c.res in prog.bodies):
+                continue
+            for cn in prog.callee_bodies(c):
+                cb = prog.bodies[cn]
+                if not cb.rec.get('derived') and cb.root != b_.root:
+                    yield c, cb.root
+    out, seen = [], {body.root}
+    level = []
+    for c, r in entered(body, region):
+        if r not in seen:
+            seen.add(r)
+            level.append((c, r))
+    for _ in range(depth):
+        nxt = []
+        for c, r in level:
+            for g in prog.group(r):
                 out.append((c, g))
-                if depth > 1:
-                    out.extend((c, g2) for _, g2 in region_callees(prog, g, None, depth - 1, _seen))
+                for _, r2 in entered(g, None):
+                    if r2 not in seen:
+                        seen.add(r2)
+                        nxt.append((c, r2))
+        level = nxt
     return out
+
+
+def arg_indices(prog, hb, l, depth=8):
+    """which arguments of its function (0-based) may local `l` of body `hb` come from? `hb` is the function body itself, or the
+    coroutine body of an async fn (its arguments are the captured fields `_1.i`, in the order the function packs them)."""
+    out = set()
+    org = origin_locals(hb, l, depth=depth)
+    if hb.name == hb.root:
+        return {x - 1 for x in org if 1 <= x <= hb.rec.get('argc', 0)}
+    rb = prog.bodies.get(hb.root)
+    if rb is None or hb.name != hb.root + '::{closure#0}':
+        return out
+    packed = None
+    for _, st in rb.stmts():
+        rv = st.get('rv')
+        if rv and rv.get('rv') == 'agg' and rv.get('def') == hb.name:
+            packed = rv['ops']
+    if packed is None:
+        return out
+    from mir import operand_places
+    for x in org:
+        for bb, kind, payload in local_defs(hb, x):
+            if kind != 'assign':
+                continue
+            for pl in operand_places(payload):
+                if pl['l'] == 1 and pl['p'] and pl['p'][0].startswith('f:') and pl['p'][0][2:].rsplit('::', 1)[-1].isdigit():
+                    i = int(pl['p'][0][2:].rsplit('::', 1)[-1])
+                    if i < len(packed) and packed[i]['k'] != 'const':
+                        out |= {y - 1 for y in origin_locals(rb, packed[i]['pl']['l'], depth=4) if 1 <= y <= rb.rec.get('argc', 0)}
+    return out
+
+
+def await_sites(body, call):
+    """blocks at which the future built by `call` is polled (its completion sites); the call itself if it is not a future"""
+    d = call.dest
+    if d is None or d['p']:
+        return [call.bb]
+    out = []
+    for c in body.calls:
+        if (c.fn or '').endswith('Future::poll') and c.args and c.args[0]['k'] != 'const' \
+                and d['l'] in origin_locals(body, c.args[0]['pl']['l'], depth=8):
+            out.append(c.bb)
+    return sorted(set(out)) or [call.bb]
+
+
+def bool_call_true_targets(body, pat):
+    """successor blocks taken when a call matching `pat` (returning bool) answered true: `if x.is_y()` and `if !x.is_y()`"""
+    pat = re.compile(pat) if isinstance(pat, str) else pat
+    out = []
+    for c in body.calls:
+        if not pat.search(c.name or '') or c.dest is None or c.dest['p']:
+            continue
+        d = c.dest['l']
+        for i, bl in enumerate(body.blocks):
+            t = bl['term']
+            if t['k'] != 'switch' or bl['cleanup'] or t['discr']['k'] == 'const':
+                continue
+            dl = t['discr']['pl']['l']
+            neg = None
+            if dl == d:
+                neg = False
+            else:
+                for st in bl['stmts']:
+                    if st['s'] == 'assign' and st['lhs']['l'] == dl and not st['lhs']['p']:
+                        rv = st['rv']
+                        if rv.get('rv') == 'use' and rv['op']['k'] != 'const' and rv['op']['pl']['l'] == d:
+                            neg = False
+                        elif rv.get('rv') == 'unop' and rv.get('op') == 'Not' and rv['a']['k'] != 'const' and rv['a']['pl']['l'] == d:
+                            neg = True
+            if neg is None:
+                continue
+            zero = [tgt for v, tgt in t['targets'] if v == '0']
+            out += zero if neg else [t['otherwise']]
+    return sorted(set(out))
